@@ -1,12 +1,13 @@
 """C14: fixed-point operations equal exact scaled-integer arithmetic (or raise)."""
 from . import cat_c14 as CAT14
 from . import common as C
-from . import c01, c03, c04, c05
+from . import c01, c02, c03, c04, c05
 from .obsjob import run_obs_job
 from .catjob import lookup
 
 PID = "C14"
-MODS = dict(value=c05, witness=c01, wire=c04, enforce=c03)
+MODS = dict(value=c05, witness=c01, wire=c04, enforce=c03, unique=c02)
+SOUND = {"lt", "le", "gt", "ge", "eq", "ne", "add", "sub", "neg", "abs", "sel"}
 
 
 def jobs(tier):
@@ -28,6 +29,10 @@ def jobs(tier):
             if cf == cfgs[0]:
                 js.append(dict(base, name="%s/%s/witness" % (e.name, tagc), analysis="witness", cfg=dict(cfg)))
                 js.append(dict(base, name="%s/%s/wire" % (e.name, tagc), analysis="wire", cfg=dict(cfg, track_all=True)))
+                if e.tags & SOUND:
+                    # results that do not go through the (unchecked-quotient) division gadget must be uniquely determined
+                    js.append(dict(base, name="%s/%s/unique" % (e.name, tagc), analysis="unique",
+                                   cfg=dict(cfg, bound=1 << 20, n=(4 if tier == "quick" else cfg["n"]))))
     return js
 
 
